@@ -296,6 +296,14 @@ func ruleLabelScopeAtBlockEnd(c *Ctx) {
 			last = pm
 		}
 	}
+	if last == nil {
+		// renamed: the function's one bool parameter
+		for _, pm := range fn.Params {
+			if pm.Type().String() == "bool" {
+				last = pm
+			}
+		}
+	}
 	n, okc := 0, true
 	var where ssa.Instruction
 	allInstrs(fn, func(in ssa.Instruction) {
